@@ -485,6 +485,10 @@ def run_shard(spec):
     fam = [n for i, n in enumerate(enum_small()) if i % spec["nshards"] == spec["shard"]]
     if quick:
         fam = [n for n in fam if rng.random() < 0.1]
+    # char-set algebra: every (or s1 s2) of (possibly complemented) sets over {a, ab, b, abc}, both orders, in every tier
+    sets = [("set", cs, neg) for cs in ("a", "ab", "b", "abc") for neg in (False, True)]
+    algebra = [("or", [x, y]) for x in sets for y in sets if x != y] + [("or", [x, y, ("lit", "c")]) for x in sets[:4] for y in sets[4:]]
+    fam += [n for i, n in enumerate(algebra) if i % spec["nshards"] == spec["shard"]]
     for n in fam:
         f = check_sre(n, maxlen, res, rng)
         if f:
